@@ -97,6 +97,8 @@ def init_strategy(kind):
         st.tuples(st.just("list"), st.lists(sx, max_size=3)).map(list),
         st.tuples(st.just("list"), st.lists(sx, min_size=2, max_size=4)).map(list),  # start complexes with several simplices
         st.tuples(st.just("dict"), st.lists(st.tuples(eid_literal, sx).map(list), max_size=3, unique_by=lambda t: repr(t[0]))).map(list),
+        # only string IDs: more simplices than the automatic-ID counter has seen
+        st.tuples(st.just("dict"), st.lists(st.tuples(st.sampled_from(["x", "y", "e1", "k"]), sx).map(list), min_size=1, max_size=3, unique_by=lambda t: repr(t[0]))).map(list),
         st.tuples(st.just("hg"), st.lists(st.tuples(eid_literal, sx).map(list), max_size=3, unique_by=lambda t: repr(t[0]))).map(list),
         # a fresh complex whose first simplex was added singly under a falsy explicit ID (0, 0.0, numpy 0)
         st.tuples(st.just("first-explicit"), sx, st.sampled_from(["int", "int", "float", "npint"])).map(list),
